@@ -307,6 +307,54 @@ pub fn push_kind(gen: &mut Generator, kind: char) -> bool {
     }
 }
 
+/// like [`push_kind`], but containers and objects get mixed contents (a dict with seven entries whose keys are five
+/// strings, an int and a None; lists, tuples and sets with items of several kinds; an instance with arguments): what the
+/// generator decides must depend on the kinds of the stack slots only, never on what the objects contain.
+pub fn push_filled(gen: &mut Generator, kind: char) -> bool {
+    use crate::stack::{InstanceObject, StackObjectRef};
+    let r = |o: StackObject| StackObjectRef::new(o);
+    let s = |t: &str| StackObjectRef::new(StackObject::String(t.to_string()));
+    let global = || StackObject::Global {
+        module: "m".to_string(),
+        name: "n".to_string(),
+    };
+    let obj = match kind {
+        'L' => StackObject::List(vec![r(StackObject::Int(1)), s("x"), r(StackObject::None)]),
+        'T' => StackObject::Tuple(vec![r(StackObject::None), r(StackObject::Int(2)), s("y")]),
+        'D' => {
+            let mut m = std::collections::HashMap::new();
+            m.insert(s("a"), r(StackObject::Int(1)));
+            m.insert(s("b"), r(StackObject::None));
+            m.insert(s("c"), s("v"));
+            m.insert(s("d"), r(StackObject::Float(0.5)));
+            m.insert(s("e"), r(StackObject::Bool(false)));
+            m.insert(r(StackObject::Int(7)), s("w"));
+            m.insert(r(StackObject::None), r(StackObject::Int(3)));
+            StackObject::Dict(m)
+        }
+        'E' | 'Z' => {
+            let mut m = std::collections::HashSet::new();
+            m.insert(r(StackObject::Int(1)));
+            m.insert(s("x"));
+            m.insert(r(StackObject::None));
+            m.insert(r(StackObject::Float(1.5)));
+            m.insert(r(StackObject::Bool(true)));
+            if kind == 'E' {
+                StackObject::Set(m)
+            } else {
+                StackObject::FrozenSet(m)
+            }
+        }
+        'O' => StackObject::Instance(InstanceObject {
+            callable: r(global()),
+            args: r(StackObject::Tuple(vec![r(StackObject::Int(4)), s("z")])),
+        }),
+        _ => return push_kind(gen, kind),
+    };
+    gen.state.stack.push(obj);
+    true
+}
+
 /// build a simulated state by hand: memo[index] := an object of the given kind.
 pub fn memo_kind(gen: &mut Generator, index: usize, kind: char) -> bool {
     match object_of_kind(kind) {
